@@ -46,8 +46,10 @@ def _numeral(t):
 
 
 class Ctx(object):
-    def __init__(self, log_atoms=('L', 'logv_', 'lmin_', 'logw_', 'lv_')):
+    def __init__(self, log_atoms=('L', 'logv_', 'lmin_', 'logw_', 'lv_'),
+                 roots=True):
         self.log_atoms = tuple(log_atoms)
+        self.roots = roots          # define sqrt / root variables by equations
         self.evars = {}
         self.cvars = {}
         self.opaque = {}
@@ -197,6 +199,28 @@ class Ctx(object):
                 return self.T(t.arg(0)) * self.T(t.arg(1))
             if n == 'DIV':
                 return self.T(t.arg(0)) / self.T(t.arg(1))
+            if n in ('POW', 'SQRT') and not self.roots:
+                return self._opaque(t)
+            if n == 'POW':
+                ex = _numeral(t.arg(1))
+                if ex is not None:
+                    for k_ in range(1, 9):      # float 1.0/k
+                        if abs(float(ex) - 1.0 / k_) < 1e-12:
+                            ex = Fraction(1, k_)
+                if ex is not None and ex.numerator == 1 and \
+                        1 <= ex.denominator <= 8:
+                    k = t.get_id()
+                    r = self.opaque.get(('pow', k))
+                    if r is None:
+                        r = self._fresh('root')
+                        self.opaque[('pow', k)] = r
+                        self.side.append(r >= 0)
+                        p_ = r
+                        for _ in range(ex.denominator - 1):
+                            p_ = p_ * r
+                        self.side.append(p_ == self.T(t.arg(0)))
+                    return r
+                return self._opaque(t)
             if n == 'SQRT':
                 k = t.get_id()
                 s = self.opaque.get(('sqrt', k))
